@@ -392,7 +392,8 @@ namespace SA.PkgState
     scratch buffer, a shared map, a registry — would make later calls depend on earlier ones, or concurrent calls on each
     other, outside anything a per-call comparison of model and code can see. -/
 theorem C08_no_hidden_process_state :
-    Gen.pkgVarNames_enc = ["Base128Encoding", "Base192Encoding", "Base32Encoding", "Base64Encoding", "Base64uEncoding", "Base85Encoding", "Base91Encoding", "RawEncoding", "cb128Invert", "cbInitialized", "iodineBase32Encoding", "iodineBase64Encoding", "iodineBase64uEncoding", "iodineBase91Encoding"] := by decide
+    Gen.pkgVarNames_enc = ["Base128Encoding", "Base192Encoding", "Base32Encoding", "Base64Encoding", "Base64uEncoding", "Base85Encoding", "Base91Encoding", "RawEncoding", "cb128Invert", "cbInitialized", "iodineBase32Encoding", "iodineBase64Encoding", "iodineBase64uEncoding", "iodineBase91Encoding"] ∧
+    Gen.singletonFields_enc = [] := by decide
 end SA.PkgState
 
 #print axioms SA.PkgState.C08_no_hidden_process_state
